@@ -2,12 +2,13 @@ pub mod declgen;
 pub mod evidence;
 pub mod gen;
 pub mod refcodec;
+pub mod render;
 pub mod tamper;
 pub mod ty;
 pub mod val;
 
 pub use ty::{Decl, DeclBody, Field, Record, Shape, Step, Ty, Variant};
-pub use val::{canon, hex, unhex, Val};
+pub use val::{canon, dynamized, hex, unhex, with_transient_defaults, Val};
 
 use serde::{Deserialize, Serialize};
 
